@@ -1,7 +1,9 @@
 (* C16 — edge cut, lambda cut and imbalance agree with their definitions.
    This file contains only the property theorems, each closed by [exact] of a
    lemma of Proofs/Metrics*Proofs.v, with [Print Assumptions] beneath. *)
-From Coupe Require Import Lib.Prelude Lib.SFloat Lib.Csr Model.Metrics Proofs.MetricsCutProofs.
+From Coq Require Import QArith.
+From Coupe Require Import Lib.Prelude Lib.SFloat Lib.Csr Model.Metrics Proofs.MetricsCutProofs
+  Proofs.MetricsLambdaProofs Proofs.MetricsLoadProofs.
 Open Scope Z_scope.
 
 (* the sparse-matrix specialisation (take_while on sorted rows) returns what the
@@ -38,10 +40,105 @@ Theorem C16_par_sum_indep : forall t xs, par_sum t xs = sumZ xs.
 Proof. exact par_sum_indep. Qed.
 Print Assumptions C16_par_sum_indep.
 
+(* lambda cut: sum over the vertices of weight x number of foreign parts in the
+   neighbourhood (k: any bound on the part ids), for both implementations *)
+Theorem C16_lambda_cut_def : forall g p ws k,
+  wf_graph g -> (length g <= length p)%nat -> length ws = length g ->
+  Forall (fun q => (q < k)%nat) p ->
+  lambda_cut g p ws = Ok (lambda_def k g p ws).
+Proof. exact lambda_cut_def. Qed.
+Print Assumptions C16_lambda_cut_def.
+
+Theorem C16_sprs_lambda_cut_def : forall g p ws k,
+  wf_graph g -> (length g <= length p)%nat -> length ws = length g ->
+  Forall (fun q => (q < k)%nat) p ->
+  sprs_lambda_cut g p ws = Ok (lambda_def k g p ws).
+Proof. exact sprs_lambda_cut_def. Qed.
+Print Assumptions C16_sprs_lambda_cut_def.
+
+(* compute_parts_load = the per-part sums, for EVERY split tree of rayon's fold/reduce_with *)
+Theorem C16_loads_def : forall t k p ws,
+  (0 < k)%nat -> Forall (fun q => (q < k)%nat) p ->
+  compute_parts_load t k p ws = Ok (loads_def k p ws).
+Proof. exact loads_def_any_tree. Qed.
+Print Assumptions C16_loads_def.
+
+(* a part id >= num_parts is reported by a panic (debug assertion), never absorbed *)
+Theorem C16_loads_out_of_range : forall t k p ws q,
+  In q p -> (k <= q)%nat -> compute_parts_load t k p ws = Panic 2.
+Proof. exact loads_out_of_range. Qed.
+Print Assumptions C16_loads_out_of_range.
+
+(* itertools' pairwise minmax loop on integers returns (smallest, largest) *)
+Theorem C16_minmax_Z : forall l,
+  minmax Z.ltb l = match l with [] => None | x :: r => Some (list_min_Z x r, list_max_Z x r) end.
+Proof. exact minmax_Z. Qed.
+Print Assumptions C16_minmax_Z.
+
+Theorem C16_max_imbalance_def : forall t k p ws,
+  (0 < k)%nat -> Forall (fun q => (q < k)%nat) p ->
+  max_imbalance t k p ws = Ok (spread (loads_def k p ws)).
+Proof. exact max_imbalance_def. Qed.
+Print Assumptions C16_max_imbalance_def.
+
+Theorem C16_imbalance_target_def : forall t targets p ws,
+  (0 < length targets)%nat -> Forall (fun q => (q < length targets)%nat) p ->
+  imbalance_target t targets p ws = Ok (max_excess (loads_def (length targets) p ws) targets).
+Proof. exact imbalance_target_def. Qed.
+Print Assumptions C16_imbalance_target_def.
+
+(* imbalance = the f64 evaluation (SpecFloat) of ONE expression applied to the per-part sums ... *)
+Theorem C16_imbalance_def : forall t k p ws,
+  (0 < k)%nat -> Forall (fun q => (q < k)%nat) p -> length p = length ws ->
+  imbalance t k p ws = Ok (imbalance_f64 k (loads_def k p ws)).
+Proof. exact imbalance_def. Qed.
+Print Assumptions C16_imbalance_def.
+
+(* ... and the same expression read over the rationals (stated over Q, not R: every
+   operation of the expression is rational) is load_max * k / total - 1, which is
+   max_p (load_p * k / total - 1): attained by the heaviest part, and an upper bound *)
+Theorem C16_imbalance_real : forall (k : nat) (x : Z) (r : list Z),
+  (0 < k)%nat -> 0 < sumZ (x :: r) ->
+  (imbalance_Q k (x :: r)
+   == inject_Z (list_max_Z x r) * inject_Z (Z.of_nat k) / inject_Z (sumZ (x :: r)) - 1)%Q.
+Proof. exact imbalance_real. Qed.
+Print Assumptions C16_imbalance_real.
+
+Theorem C16_imbalance_real_is_max : forall (k : nat) (x : Z) (r : list Z) (l : Z),
+  (0 < k)%nat -> 0 < sumZ (x :: r) -> In l (x :: r) ->
+  (inject_Z l * inject_Z (Z.of_nat k) / inject_Z (sumZ (x :: r)) - 1 <= imbalance_Q k (x :: r))%Q.
+Proof. exact imbalance_real_is_max. Qed.
+Print Assumptions C16_imbalance_real_is_max.
+
+Theorem C16_heaviest_part_exists : forall x r, In (list_max_Z x r) (x :: r).
+Proof. exact list_max_Z_in. Qed.
+
+Theorem C16_imbalance_zero_total : forall (k : nat) loads, sumZ loads = 0 -> (imbalance_Q k loads == 0)%Q.
+Proof. exact imbalance_Q_zero_total. Qed.
+Print Assumptions C16_imbalance_zero_total.
+
+(* the rational and the f64 value are instances of the same expression *)
+Theorem C16_imbalance_same_expression :
+  imbalance_f64 = imbalance_expr SpecFloat.spec_float f64_of_Z f64_sub f64_div f64_is_zero flt f64_zero
+  /\ imbalance_Q = imbalance_expr Q inject_Z Qminus Qdiv (fun q => Qeq_bool q 0) Qltb 0%Q.
+Proof. split; reflexivity. Qed.
+
 (* non-vacuity: a symmetric weighted triangle with a pendant vertex, 3 parts *)
 Example C16_nonvacuous_cut :
   let g := [[(1%nat, 5); (2%nat, 7)]; [(0%nat, 5); (2%nat, 1); (3%nat, 2)]; [(0%nat, 7); (1%nat, 1)]; [(1%nat, 2)]] in
   let p := [0; 1; 1; 2]%nat in
   wf_graphb g = true /\ rows_sortedb true g = true /\ symmetricb g = true /\
   sprs_edge_cut g p = Ok 14 /\ edge_cut g p = Ok 14 /\ cut_pairs g p = 14.
+Proof. vm_compute. repeat split; reflexivity. Qed.
+
+Example C16_nonvacuous_lambda :
+  let g := [[(1%nat, 5); (2%nat, 7)]; [(0%nat, 5); (2%nat, 1); (3%nat, 2)]; [(0%nat, 7); (1%nat, 1)]; [(1%nat, 2)]] in
+  let p := [0; 1; 1; 2]%nat in
+  lambda_cut g p [1; 10; 100; 1000] = Ok 1121 /\ lambda_def 3 g p [1; 10; 100; 1000] = 1121.
+Proof. vm_compute. split; reflexivity. Qed.
+
+Example C16_nonvacuous_loads :
+  compute_parts_load (Node 2 Leaf (Node 1 Leaf Leaf)) 3 [2; 0; 2; 1; 0]%nat [5; 6; 7; 8; 9] = Ok [15; 8; 12]
+  /\ max_imbalance Leaf 3 [2; 0; 2; 1; 0]%nat [5; 6; 7; 8; 9] = Ok 7
+  /\ (imbalance_Q 3 [15; 8; 12]%Z == 2 # 7)%Q.
 Proof. vm_compute. repeat split; reflexivity. Qed.
